@@ -1,1 +1,164 @@
-//! Reference models for the digest monitors.
+//! Reference data for the digest monitor (C13).
+//!
+//! The expected digests are NOT computed here: they come from Python's
+//! `hashlib` through `/verif/oracle/digest_vectors.py`, which the plan's
+//! pre-stage hook runs for (seed, tier).  This module only reads that file.
+//!
+//! Format (see the script):
+//!
+//! ```text
+//! # pvh-digest-vectors v1 seed=<seed> tier=<tier> inputs=<n>
+//! V <index> <class> <utf8 0|1> <hex|-> <12 digests: plain x6, filtered x6>
+//! # end <n>
+//! ```
+//!
+//! Every problem with the file is a *harness* error (panic with a message
+//! starting `harness:`); the caller must load it outside any `cx.check` body.
+
+use std::path::{Path, PathBuf};
+
+/// Harness error: the framework's panic hook records messages instead of
+/// printing them, so print first (the driver shows the shard's stderr tail
+/// with its INCONCLUSIVE line), then panic.
+macro_rules! die {
+    ($($arg:tt)*) => {{
+        let msg = format!($($arg)*);
+        eprintln!("{msg}");
+        panic!("{msg}")
+    }};
+}
+pub(crate) use die;
+
+/// Algorithm order of the digest columns; also the canonical spellings.
+pub const NAMES: [&str; 6] = ["BLAKE2s", "MD5", "RMD160", "SHA1", "SHA256", "SHA512"];
+/// Length of the hex digest per algorithm.
+pub const HEXLEN: [usize; 6] = [64, 32, 40, 40, 64, 128];
+pub const MARK: &[u8] = b"$NetBSD";
+
+pub struct Vector {
+    pub index: u64,
+    pub class: String,
+    /// What Python says about UTF-8 validity (cross-checked by the monitor).
+    pub utf8: bool,
+    pub len: usize,
+    /// Decoded only for the entries this shard owns.
+    pub data: Option<Vec<u8>>,
+    pub plain: [String; 6],
+    pub filtered: [String; 6],
+}
+
+fn unhex(s: &str, what: &str) -> Vec<u8> {
+    let b = s.as_bytes();
+    if b.len() % 2 != 0 {
+        die!("harness: odd hex length in {what}");
+    }
+    let nib = |c: u8| -> u8 {
+        match c {
+            b'0'..=b'9' => c - b'0',
+            b'a'..=b'f' => c - b'a' + 10,
+            _ => die!("harness: bad hex digit in {what}"),
+        }
+    };
+    let mut out = Vec::with_capacity(b.len() / 2);
+    for p in b.chunks_exact(2) {
+        out.push(nib(p[0]) << 4 | nib(p[1]));
+    }
+    out
+}
+
+pub fn vectors_path(tier: &str) -> PathBuf {
+    let aux = std::env::var_os("PVH_AUX").unwrap_or_else(|| {
+        die!(
+            "harness: PVH_AUX is not set; C13 needs the hashlib vectors written by the plan's \
+             pre-stage hook (oracle/digest_vectors.py <seed> {tier} $PVH_AUX/vectors-{tier}.txt)"
+        )
+    });
+    Path::new(&aux).join(format!("vectors-{tier}.txt"))
+}
+
+/// Load the vectors of (seed, tier); `mine` selects the entries whose bytes
+/// are decoded.
+pub fn load(seed: u64, tier: &str, mine: &dyn Fn(u64) -> bool) -> Vec<Vector> {
+    let path = vectors_path(tier);
+    let text = std::fs::read_to_string(&path).unwrap_or_else(|e| {
+        die!(
+            "harness: cannot read the hashlib vectors {path:?}: {e} (run \
+             oracle/digest_vectors.py {seed} {tier} {path:?} or use ./check, whose pre-stage hook does)"
+        )
+    });
+    let mut lines = text.lines();
+    let head = lines.next().unwrap_or("");
+    let want = format!("# pvh-digest-vectors v1 seed={seed} tier={tier} inputs=");
+    let Some(n) = head.strip_prefix(want.as_str()).and_then(|s| s.parse::<usize>().ok()) else {
+        die!(
+            "harness: {path:?} is not the vectors file of seed {seed} tier {tier}: header {head:?} \
+             (regenerate: oracle/digest_vectors.py {seed} {tier} {path:?})"
+        );
+    };
+    let mut out: Vec<Vector> = Vec::with_capacity(n);
+    let mut ended = false;
+    for line in lines {
+        if let Some(rest) = line.strip_prefix("# end ") {
+            if rest.parse::<usize>().ok() != Some(n) {
+                die!("harness: {path:?}: bad trailer {line:?}");
+            }
+            ended = true;
+            continue;
+        }
+        if line.is_empty() || line.starts_with('#') {
+            continue;
+        }
+        let f: Vec<&str> = line.split(' ').collect();
+        if f.len() != 17 || f[0] != "V" {
+            die!("harness: {path:?}: malformed line starting {:?}", &line[..line.len().min(40)]);
+        }
+        let index: u64 =
+            f[1].parse().unwrap_or_else(|_| die!("harness: {path:?}: bad index {:?}", f[1]));
+        if index != out.len() as u64 {
+            die!("harness: {path:?}: index {index} out of sequence");
+        }
+        let utf8 = match f[3] {
+            "0" => false,
+            "1" => true,
+            x => die!("harness: {path:?}: bad utf8 flag {x:?}"),
+        };
+        let hex = if f[4] == "-" { "" } else { f[4] };
+        let data = if mine(index) { Some(unhex(hex, "input bytes")) } else { None };
+        let dig = |k: usize| -> String {
+            let s = f[5 + k];
+            if s.len() != HEXLEN[k % 6]
+                || !s.bytes().all(|c| c.is_ascii_digit() || (b'a'..=b'f').contains(&c))
+            {
+                die!("harness: {path:?}: entry {index}: digest column {k} is not lower-case hex of the right length");
+            }
+            s.to_string()
+        };
+        out.push(Vector {
+            index,
+            class: f[2].to_string(),
+            utf8,
+            len: hex.len() / 2,
+            data,
+            plain: [dig(0), dig(1), dig(2), dig(3), dig(4), dig(5)],
+            filtered: [dig(6), dig(7), dig(8), dig(9), dig(10), dig(11)],
+        });
+    }
+    if !ended || out.len() != n {
+        die!("harness: {path:?} is truncated: {} of {n} entries, trailer seen: {ended}", out.len());
+    }
+    out
+}
+
+/// Start offsets of every (possibly overlapping) occurrence of `$NetBSD`.
+/// Used to place read cuts, never for a verdict.
+pub fn marker_offsets(data: &[u8]) -> Vec<usize> {
+    if data.len() < MARK.len() {
+        return vec![];
+    }
+    (0..=data.len() - MARK.len()).filter(|&i| &data[i..i + MARK.len()] == MARK).collect()
+}
+
+/// Offsets of every LF.
+pub fn newline_offsets(data: &[u8]) -> Vec<usize> {
+    data.iter().enumerate().filter(|(_, &b)| b == b'\n').map(|(i, _)| i).collect()
+}
